@@ -8,6 +8,7 @@ import (
 	"context"
 	"fmt"
 	"io"
+	"log/slog"
 	"net"
 	"runtime/debug"
 	"sync"
@@ -18,6 +19,7 @@ import (
 	ic "github.com/libp2p/go-libp2p/core/crypto"
 	"github.com/libp2p/go-libp2p/core/peer"
 	"github.com/libp2p/go-libp2p/core/sec"
+	logging "github.com/libp2p/go-libp2p/gologshim"
 	tptu "github.com/libp2p/go-libp2p/p2p/net/upgrader"
 	"github.com/libp2p/go-libp2p/p2p/security/noise"
 	libp2ptls "github.com/libp2p/go-libp2p/p2p/security/tls"
@@ -32,6 +34,7 @@ import (
 )
 
 func TestMain(m *testing.M) {
+	logging.SetDefaultHandler(slog.DiscardHandler) // the swarm logs every refused connection at error level
 	stats.Describe("exploration",
 		"A: the honest matrix (key type of each side x role x expected-peer setting x prologue pairing x {noise,tls}) is enumerated; "+
 			"B/E: one man-in-the-middle edit per case (flip byte i of handshake frame m -- all positions enumerated --, truncate, extend, drop, "+
